@@ -121,3 +121,27 @@ Theorem C11_group_signal_refuted : exists g gmid,
   gfinal 1 g /\ scheds (jd g 0) 0 = SFinal VDone /\ done (jd g 0) = true /\ body_runs (jd g 0) = 2.
 Proof. exact group_signal_refuted. Qed.
 Print Assumptions C11_group_signal_refuted.
+
+(* possibility liveness (asked for by the audit: C11_no_deadlock alone allows the endless run
+   [LReady; LSLock; LAbort]^n of "progress" effects).  Whatever was killed and restarted so far, as long as no
+   job run failed: from the current state there IS a continuation - effects of the scheduler and of the job
+   processes only, no further death, no kill, no aborted start, no failing body - to a final state in which
+   every job is DONE; by C11_final_all_done each body has then run exactly once.  Dependencies acyclic (they
+   are: a dependency is submitted before its dependent).
+   FAIRNESS ASSUMPTION, not proved: the operating system eventually runs every process that can move, task bodies
+   terminate, and a start is not aborted for ever (LAbort = a token could not be taken: the fairness of the token
+   protocol is C09's statement).  Under that assumption the continuation is the one that happens: every effect
+   of it decreases the measure `mu` (16 x rank of the scheduler's program counter + sum of the ranks of the job
+   processes), so no run of such effects is infinite.                                                        *)
+Theorem C11_can_finish : forall deps, (forall j d, In d (deps j) -> d < j) ->
+  forall n g, greachable1 deps g -> no_abort g ->
+  exists g', gsteps1 deps g g' /\ greachable1 deps g' /\ gfinal n g' /\ no_abort g' /\
+             forall j, j < n -> scheds (jd g' j) 0 = SFinal VDone.
+Proof. exact can_finish. Qed.
+Print Assumptions C11_can_finish.
+
+(* every effect of that continuation strictly decreases the measure: one job, local form *)
+Theorem C11_job_advances : forall st, InvL st -> aborts st = 0 -> (forall v, scheds st 0 <> SFinal v) ->
+  exists l st', good l = true /\ lstep l st = Some st' /\ mu st' < mu st.
+Proof. exact job_advances. Qed.
+Print Assumptions C11_job_advances.
